@@ -8,10 +8,12 @@ runner_class=C7N_Interpreted_Runner)``, ``program(ast, functions=FUNCTIONS)``, e
 ``ref.globref``, ``ref.cidr`` and ``ref.c7nref``.
 
 Part 2 (context histories): every sequence of length <= 4 (thorough <= 5) over
-{ok, celerr, hostraise} x {F1, F2}, under four ways of installing the filter, each history run in
-a freshly forked child that starts from the untouched post-import value of ``c7nlib.C7N``; a
-probe host function records ``c7nlib.C7N`` during each evaluation.  Nothing resets the global
-by hand.
+{ok, celerr, hostraise} x {F1, F2}, under four ways of installing the filter; a probe host
+function records ``c7nlib.C7N`` during each evaluation.  Nothing ever assigns the global:
+histories run in forked children of a worker that never evaluates, back to back only while the
+state read after a history is the pristine one (a leak ends the chain, is reported, and the next
+history starts in a new fork); short histories additionally run one per fresh fork, a sample in
+fresh python subprocesses.
 """
 import itertools
 import json
@@ -657,8 +659,8 @@ def run_history(mode, hist):
     return {"initial": initial, "steps": steps}
 
 
-def forked_history(mode, hist):
-    """Fork; the child replays the history from the untouched process state and reports its trace."""
+def _in_fork(fn):
+    """Run fn() in a forked child of this (never-evaluating) worker; JSON result back through a pipe."""
     H = Hist.get()
     if H.c7nlib.C7N is not None:
         raise runner.HarnessError("the forking worker itself has c7nlib.C7N set; it must never evaluate")
@@ -669,7 +671,7 @@ def forked_history(mode, hist):
         try:
             os.close(rfd)
             try:
-                data = json.dumps({"ok": run_history(mode, hist)})
+                data = json.dumps({"ok": fn()})
             except BaseException as ex:  # noqa
                 data = json.dumps({"crash": f"{type(ex).__name__}: {ex}\n{traceback.format_exc()}"})
             with os.fdopen(wfd, "w") as f:
@@ -688,6 +690,28 @@ def forked_history(mode, hist):
     if "crash" in res:
         raise runner.HarnessError(f"history child crashed: {res['crash']}")
     return res["ok"]
+
+
+def forked_history(mode, hist):
+    """One history in its own fresh fork."""
+    return _in_fork(lambda: run_history(mode, hist))
+
+
+def run_chain(items):
+    """Histories back to back in one process, *reading* the context state after each and going on only while it
+    is the pristine one (nothing is ever reset): the next history then starts from the same observable state as a
+    fresh process.  The first history that leaves anything else ends the chain."""
+    H = Hist.get()
+    out = []
+    for mode, hist in items:
+        out.append(run_history(mode, hist))
+        if H.abst(H.c7nlib.C7N) != "None":
+            break
+    return out
+
+
+def forked_chain(items):
+    return _in_fork(lambda: run_chain(items))
 
 
 def rel(state, fname):
@@ -732,10 +756,7 @@ def check_trace(mode, hist, trace):
 
 
 def mode_bound(mode, tier):
-    """Full bound for the two modes that pass the filter to the runner; one less for the two that rely on
-    the outer ``with`` alone (a fork costs 5-10 ms; the clearing logic they exercise has no memory)."""
-    n = P(tier)["hist_len"]
-    return n if mode in ("tests", "runner") else n - 1
+    return P(tier)["hist_len"]
 
 
 def hist_space(tier):
@@ -746,16 +767,9 @@ def hist_cardinality(tier):
     return sum(nwords(len(HSYMBOLS), mode_bound(m, tier), 1) for m in MODES)
 
 
-def hist_shard(task):
-    lo, hi, tier = task
-    part = runner.Part()
-    space = hist_space(tier)
-    Hist.get()
-    for idx in range(lo, hi):
-        mode, hist = space[idx]
-        hist = [list(e) for e in hist]
-        trace = forked_history(mode, hist)
-        div, states = check_trace(mode, hist, trace)
+def _judge_history(part, mode, hist, trace, confirmed, count=True):
+    div, states = check_trace(mode, hist, trace)
+    if count:
         part.case(nontrivial=True)
         part.extra["transitions"] += len(hist)
         part.extra["histories"] += 1
@@ -766,19 +780,59 @@ def hist_shard(task):
             for step in trace["steps"]:
                 part.extra[f"with_only_saw|{'/'.join(step[1])}"] += 1
         part.outcome(f"history:{mode}:" + "+".join(sorted({s[4] for s in trace["steps"]})))
-        if div is None:
-            part.extra["traces_validated_against_impl"] += 1
-            continue
-        again = forked_history(mode, hist)  # soundness rule 3: reproduce from a second fresh process
+    if div is None:
+        part.extra["traces_validated_against_impl" if count else "fresh_fork_histories_validated"] += 1
+        return
+    i, kind, what = div
+    sig = f"ctx:{mode}:{kind}:{what}"
+    if sig not in confirmed:  # soundness rule 3: the reported witness of a signature is reproduced in a fresh process of its own
+        confirmed.add(sig)
+        again = forked_history(mode, hist)
         if again != trace:
             raise runner.HarnessError(f"history {mode} {hist} is not reproducible: {trace} vs {again}")
-        i, kind, what = div
-        part.violation("context-" + what.split(":")[0], f"ctx:{mode}:{kind}:{what}", {"part": "history", "mode": mode, "history": hist},
-                       f"mode {mode}, history {hist}: step {i} ({kind}, {hist[i][1]}) diverges from the model: {what}; "
-                       f"trace [before, during, inside-outer-with, after, outcome] = {trace['steps']}")
+    part.violation("context-" + what.split(":")[0], sig, {"part": "history", "mode": mode, "history": hist},
+                   f"mode {mode}, history {hist}: step {i} ({kind}, {hist[i][1]}) diverges from the model: {what}; "
+                   f"trace [before, during, inside-outer-with, after, outcome] = {trace['steps']}")
+
+
+def hist_shard(task):
+    lo, hi, tier = task
+    part = runner.Part()
+    space = [(m, [list(e) for e in h]) for m, h in hist_space(tier)[lo:hi]]
+    Hist.get()
+    confirmed = set()
+    idx = 0
+    while idx < len(space):
+        traces = forked_chain(space[idx:])
+        part.extra["chain_forks"] += 1
+        if not traces:
+            raise runner.HarnessError("a chain child ran nothing")
+        for (mode, hist), trace in zip(space[idx:], traces):
+            _judge_history(part, mode, hist, trace, confirmed)
+        idx += len(traces)
     part.space("context-histories", 0, hi - lo)
     if lo == 0:
-        part.sample({"part": "history", "modes": list(MODES), "first": space[0][1], "last": space[-1][1], "events": HEXPR})
+        part.sample({"part": "history", "modes": list(MODES), "first": space[0][1], "last": hist_space(tier)[-1][1], "events": HEXPR})
+    return part
+
+
+def fresh_bound(tier):
+    return 3 if tier == "thorough" else 2
+
+
+def fresh_space(tier):
+    return [(m, [list(e) for e in h]) for m in MODES for h in words(HSYMBOLS, fresh_bound(tier), 1)]
+
+
+def histfresh_shard(task):
+    """Guard for the chain shortcut: every short history once more, each in a fresh fork of its own, same oracle."""
+    lo, hi, tier = task
+    part = runner.Part()
+    Hist.get()
+    confirmed = set()
+    for mode, hist in fresh_space(tier)[lo:hi]:
+        _judge_history(part, mode, hist, forked_history(mode, hist), confirmed, count=False)
+        part.extra["fresh_fork_histories"] += 1
     return part
 
 
@@ -793,6 +847,10 @@ def subprocess_history(mode, hist):
     if r.returncode != 0:
         raise runner.HarnessError(f"fresh python subprocess failed: {r.stderr[-400:]}")
     return json.loads(r.stdout.strip().splitlines()[-1])
+
+
+def hist_task(task):
+    return {"chain": hist_shard, "fresh": histfresh_shard, "sub": histsub_shard}[task[0]](task[1:])
 
 
 def histsub_shard(task):
@@ -829,19 +887,24 @@ def run(ctx):
         "form, all under C7N_Interpreted_Runner with FUNCTIONS inside a C7NContext); a case is (helper, path, arguments), distinct by construction; "
         "non-trivial iff the reference is not UNSPEC (malformed glob brackets, host bits set / malformed / non-network CIDR texts, a bad date in a "
         "marked value, ARN shapes outside the documented two, unknown field names are UNSPEC: counted, outcome recorded, not compared). "
-        "context histories: every sequence of length 1..%d over {ok, celerr, hostraise} x {F1, F2} with the filter installed as the tests do (outer C7NContext "
-        "+ evaluate(filter=F)) or by evaluate(filter=F) alone, and every sequence of length one less with an outer C7NContext(filter=F) alone around the C7N "
-        "runner or the plain InterpretedRunner, each history in a fresh fork; every history is non-trivial (cleared-after and outcome are compared at every step; filter visibility is compared except in mode "
-        "with-only where it is UNSPEC)"
+        "context histories: every sequence of length 1..%d over {ok, celerr, hostraise} x {F1, F2} under each of four ways of installing the filter "
+        "(tests: outer C7NContext + evaluate(filter=F) as tests/test_c7nlib.py does; runner: evaluate(filter=F) alone; with-only: C7NContext(filter=F) around "
+        "C7N_Interpreted_Runner.evaluate(activation); plain: C7NContext(filter=F) around InterpretedRunner.evaluate); histories run back to back in forked "
+        "chain processes that only go on while the context state *read* after a history is the pristine one (nothing is ever reset; any other state ends the "
+        "chain and the next history starts in a new fork), and every history of length <= %d additionally runs in a fresh fork of its own; every history is "
+        "non-trivial (state before, cleared-after and outcome are compared at every step; filter visibility is compared except in mode with-only where it is UNSPEC)"
         % (pp["set_len"], pp["norm_len"], "".join(pp["norm_alpha"]), pp["glob_plen"], "".join(GLOB_PAT_ALPHA), pp["glob_tlen"],
            len(cidr_nets(pp["cidr_bases"])), len(pp["cidr_bases"]), ", last sub-network at every longer prefix, sibling networks" if pp["cidr_extra"] else "",
-           pp["ver_len"], list(VER_ALPHA), pp["tag_len"], len(TAG_VALUES), ARN_MAXFIELDS, pp["hist_len"]))
+           pp["ver_len"], list(VER_ALPHA), pp["tag_len"], len(TAG_VALUES), ARN_MAXFIELDS, pp["hist_len"], fresh_bound(tier)))
     ctx.assumptions = [
         "values outside the alphabets are not explored; IPv6, netmask notation, the AWS-calling helpers and nested evaluations are out of scope",
         "version comparison: the statement names '<'; the other five comparison operators are checked as the same numeric order (signature names the helper version_ops)",
         "marked_key: null for a missing key / a value without ':' or '@' is taken from the docstring and tests/test_c7nlib.py; a date that is not YYYY-MM-DD is UNSPEC",
-        "history children are forked from a worker that has imported celpy and compiled the three probe programs but has never entered a C7NContext or evaluated; "
-        "the worker's c7nlib.C7N is asserted None before every fork and nothing ever assigns it; a sample of histories is cross-checked against fresh python subprocesses",
+        "history children are forked from a worker that has imported celpy and compiled the probe programs but has never entered a C7NContext or evaluated; "
+        "the worker's c7nlib.C7N is asserted None before every fork and nothing ever assigns it",
+        "chain shortcut: a history that starts after another one in the same process starts from a process whose context state was read as None, which is taken "
+        "to be the same state as a fresh process (the context is the module global c7nlib.C7N and nothing else); guarded by the fresh-fork runs of every short "
+        "history and by fresh python subprocesses for a sample",
         "mode with-only (C7NContext(filter=F) around C7N_Interpreted_Runner.evaluate(activation) without filter=): the runner installs its own context with "
         "filter=None, so what the functions see is not compared; clearing and outcomes are",
     ]
@@ -853,12 +916,18 @@ def run(ctx):
             ctx.coverage_extra.update({"states": 0, "transitions": 0, "traces_validated_against_impl": 0})
             return _run_helpers(ctx, tier, 0, only)
     nh = hist_cardinality(tier)
-    ctx.run_shards(hist_shard, [(lo, hi, tier) for lo, hi in runner.shards(nh, 4 * runner.NPROC)])
-    subs = [(m, (s,)) for m in MODES for s in HSYMBOLS]
+    nf = len(MODES) * nwords(len(HSYMBOLS), fresh_bound(tier), 1)
+    subs = []
     for i, m in enumerate(MODES):
         longest = [tuple(HSYMBOLS[(a + j) % len(HSYMBOLS)] for j in range(mode_bound(m, tier))) for a in range(len(HSYMBOLS))]
-        subs += [(m, h) for h in (longest if ctx.thorough else [longest[(i + ctx.seed) % len(longest)]])]
-    ctx.run_shards(histsub_shard, subs)
+        firsts = [(s,) for s in HSYMBOLS]
+        pick = (i + ctx.seed) % len(HSYMBOLS)
+        subs += [(m, h) for h in (firsts + longest if ctx.thorough else [firsts[pick], longest[pick]])]
+    # one pool for the three kinds of history task: the probe programs are built once per worker
+    tasks = [("sub", m, h) for m, h in subs]
+    tasks += [("chain", lo, hi, tier) for lo, hi in runner.shards(nh, 2 * runner.NPROC)]
+    tasks += [("fresh", lo, hi, tier) for lo, hi in runner.shards(nf, 2 * runner.NPROC)]
+    ctx.run_shards(hist_task, tasks)
     ctx.part.spaces["context-histories"]["cardinality"] = nh
     ctx.part.spaces["context-histories"]["bound"] = "length<=" + "/".join(f"{m}:{mode_bound(m, tier)}" for m in MODES)
     ex = ctx.part.extra
@@ -874,9 +943,15 @@ def run(ctx):
         "transitions": ex.pop("transitions"),
         "traces_validated_against_impl": ex.pop("traces_validated_against_impl", 0),
         "histories": ex.pop("histories"),
+        "fresh_fork_histories": ex.pop("fresh_fork_histories", 0),
+        "fresh_fork_histories_validated": ex.pop("fresh_fork_histories_validated", 0),
+        "fresh_fork_bound": fresh_bound(tier),
+        "chain_forks": ex.pop("chain_forks", 0),
         "history_bound": {"events": len(HSYMBOLS), "length_per_install_mode": {m: mode_bound(m, tier) for m in MODES}},
         "with_only_mode_functions_saw": saw,
     })
+    if ctx.coverage_extra["fresh_fork_histories"] != nf:
+        raise runner.HarnessError(f"ran {ctx.coverage_extra['fresh_fork_histories']} fresh-fork histories, expected {nf}")
     if ctx.coverage_extra["histories"] != nh:
         raise runner.HarnessError(f"ran {ctx.coverage_extra['histories']} histories, cardinality is {nh}")
     _run_helpers(ctx, tier, nh, only)
